@@ -62,13 +62,13 @@ class Workspace:
     def write(self):
         r = self.root
         shutil.rmtree(r, ignore_errors=True)
-        for d in ["app/src/bin", "bp", "diag", "dump", "home", "sdk", "helper/src"]:
+        for d in ["app/src/bin", "bp", "diag", "dump", "home", "sdk", "helper/src", "ext/helper/src"]:
             os.makedirs(os.path.join(r, d))
         names = sorted(self.modules)
         members = ["app", "helper"] + ["sdk/%s" % m for m in names]
         repo = os.path.realpath(pxvlib.REPO)
         with open(os.path.join(r, "Cargo.toml"), "w") as f:
-            f.write("[workspace]\nmembers = %s\nresolver = \"3\"\n[workspace.package]\nedition = \"2024\"\n"
+            f.write("[workspace]\nmembers = %s\nexclude = [\"ext\"]\nresolver = \"3\"\n[workspace.package]\nedition = \"2024\"\n"
                     "[workspace.dependencies]\npavex = { path = \"%s/runtime/pavex\", features = [\"server\"] }\n"
                     "[profile.dev]\ndebug = \"none\"\n" % (json.dumps(members), repo))
         lock = os.path.join(repo, "compiler", "ui_tests", "Cargo.lock")
@@ -79,13 +79,21 @@ class Workspace:
             f.write("[package]\nname = \"app\"\nversion = \"0.1.0\"\nedition = \"2024\"\n"
                     "[lints.rust.unexpected_cfgs]\nlevel = \"allow\"\ncheck-cfg = [\"cfg(pavex_ide_hint)\"]\n"
                     "[dependencies]\npavex = { workspace = true }\nserde = { version = \"1\", features = [\"derive\"] }\n"
-                    "helper = { path = \"../helper\" }\n")
+                    "helper = { path = \"../helper\" }\n"
+                    # a second package whose LIBRARY is called `helper` too, outside the workspace (its docs are cached, the
+                    # workspace member's never are): two `helper.json` compete for one file name in target/doc (C10)
+                    "helper_ext = { package = \"helper\", path = \"../ext/helper\" }\n")
         # a second local crate: components whose signatures name `helper::Greeting` make the generated SDK depend on it,
         # so the set of dependencies of an SDK varies between programs (C10)
         with open(os.path.join(r, "helper", "Cargo.toml"), "w") as f:
             f.write("[package]\nname = \"helper\"\nversion = \"0.1.0\"\nedition = \"2024\"\n")
         with open(os.path.join(r, "helper", "src", "lib.rs"), "w") as f:
-            f.write("pub struct Greeting { pub id: u64 }\n")
+            f.write("#![doc(html_root_url = \"https://docs.rs/helper/0.1.0\")]\npub struct Greeting { pub id: u64 }\n"
+                    "pub mod inner { pub struct Salt { pub id: u8 } }\n")
+        with open(os.path.join(r, "ext", "helper", "Cargo.toml"), "w") as f:
+            f.write("[package]\nname = \"helper\"\nversion = \"2.0.0\"\nedition = \"2024\"\n")
+        with open(os.path.join(r, "ext", "helper", "src", "lib.rs"), "w") as f:
+            f.write("#![doc(html_root_url = \"https://docs.rs/helper/2.0.0\")]\npub mod inner { pub struct Salt { pub id: u64 } }\npub use inner::Salt;\n")
         with open(os.path.join(r, "app", "src", "rt.rs"), "w") as f:
             f.write(gen_app.RT_RS)
         with open(os.path.join(r, "app", "src", "lib.rs"), "w") as f:
